@@ -1811,8 +1811,9 @@ BTree_rangeSearch(BTree *self, PyObject *args, PyObject *kw, char type)
     /* The buckets differ, or they're the same and the offsets show a non-
     * empty range.
     */
-    if (min != Py_None && max != Py_None && /* both args user-supplied */
-        lowbucket != highbucket)   /* and different buckets */
+    if (lowbucket != highbucket &&          /* different buckets and */
+        ((min != Py_None && max != Py_None) || /* both args user-supplied */
+         excludemin || excludemax))         /* or an end was moved inwards */
     {
         KEY_TYPE first;
         KEY_TYPE last;
